@@ -1,7 +1,7 @@
 SPECIFICATION Spec
 CONSTANTS
   Base <- SmallBase
-  N = 150
+  N = 24
   BreakSub = FALSE
-INVARIANTS NatLaws ZLaws PowLaws BoundLaws WideLaws
+INVARIANTS NatLaws ZLaws BoundLaws WideLaws
 CHECK_DEADLOCK FALSE
